@@ -43,6 +43,10 @@ class Check(FormulaCheck):
             specs.append({'campaign': 'strings', 'seed': seed, 'n': 1200 if q else 25000, 'i': i})
             specs.append({'campaign': 'renderings', 'seed': seed, 'n': 900 if q else 18000, 'i': i, 'layouts': 4 if q else 8})
             specs.append({'campaign': 'arrays', 'seed': seed, 'n': 200 if q else 8000, 'i': i})
+        # a literal spells the same number whatever decimal context the host thread has set (few digits, another rounding, the Inexact trap)
+        for k, dc in enumerate(({'prec': 6}, {'prec': 3, 'rounding': 'ROUND_DOWN'}, {'prec': 28, 'trap_inexact': True})):
+            specs.append({'campaign': 'literals', 'seed': seed, 'n': 600 if q else 10000, 'i': 'dc%d' % k, 'decimal_context': dc})
+            specs.append({'campaign': 'percent', 'lo': 0, 'hi': 2001, 'decimal_context': dc})
         return specs
 
     def prepare(self, spec, rec):
@@ -125,7 +129,14 @@ class Check(FormulaCheck):
             self.expect('C05/numeric-literal:integer%:not-correctly-rounded', r['error'] is None and canon(r['result']) == canon(float(Fr(n, 100))) or
                         (r['error'] is None and n == 0 and r['result'] == 0), formula='%d%%' % n, record=r, expected=float(Fr(n, 100)))
             rec.nt(('pct', n))
-        rec.count('percentages_enumerated', spec['hi'] - spec['lo'])
+        rec.count('percentages_enumerated' + ('' if not spec.get('decimal_context') else '.under_other_decimal_context'), spec['hi'] - spec['lo'])
+        # long percent literals: the hundredth of a many-digit whole number, correctly rounded
+        import random
+        rnd = random.Random('pct:%s' % spec.get('decimal_context'))
+        for _ in range(300):
+            n = rnd.randrange(10 ** rnd.randint(5, 40))
+            r = self.parse('%d%%' % n)
+            self.expect('C05/numeric-literal:integer%:not-correctly-rounded', r['error'] is None and canon(r['result']) == canon(float(Fr(n, 100))), formula='%d%%' % n, record=r, expected=float(Fr(n, 100)))
 
     # ------------------------------------------------------------------ string literals
     ALPHA = 'abcXYZ019 ,.;:!?-_()[]{}#%&*+/<=>@^|~`$\\\\' + '\t\n' + 'àéîõüçñÀÉ' + '你好世界' + '"\'' * 3
